@@ -1,7 +1,7 @@
 import Driver.Util
 import NixModel.Pure.Validator
 import NixModel.Generated.ValidatorGuards
-import NixModel.Pure.DimLink
+import NixModel.Pure.DimLinkTicks
 open Lean Nix.Validator Nix.Validator.Gen
 
 /-!
@@ -16,7 +16,7 @@ from the source (`Generated/ValidatorGuards.lean`) under `PyGuard.eval`, the rea
 `["strss", [[…]]]`, `["intss", [[…]]]`, `["sized", n]`, `["enum", name]`; a path that is absent reads as `None`); the answer is the list of
 identifiers whose site fires, in source order, or `{"err": <class>}`.
 
-`["linkticks", shape, index, data]` = the ticks of a range dimension linked to a DataArray (`Pure/DimLink.lean`),
+`["linkticks", shape, index, data]` = the ticks of a range dimension linked to a DataArray (`Pure/DimLinkTicks.lean`),
 `["linkaccept", shape, index]` = the verdict of `link_data_array`.
 -/
 namespace Driver.C14
@@ -225,7 +225,7 @@ def handle (j : Json) : Json :=
     match (do return (← (← arr sh).mapM nat, ← (← arr ix).mapM int, ← (← arr da).mapM rat) : P _) with
     | .error m => bad s!"C14: {m}"
     | .ok (shape, index, data) =>
-      match Nix.DimLink.linkedTicks shape index data with
+      match Nix.DimLinkTicks.linkedTicks shape index data with
       | .ok v => ok (Json.arr (v.map fun r => Json.str (ratStr r)).toArray)
       | .error e => err e
   | [Json.str "linkaccept", sh, ix] =>
@@ -233,7 +233,7 @@ def handle (j : Json) : Json :=
     match (do return (← (← arr sh).mapM nat, ← (← arr ix).mapM int) : P _) with
     | .error m => bad s!"C14: {m}"
     | .ok (shape, index) =>
-      match Nix.DimLink.linkDataArray shape index with
+      match Nix.DimLinkTicks.linkDataArray shape index with
       | .ok _ => ok Json.null
       | .error e => err e
   | [Json.str "catalogue"] =>
